@@ -143,6 +143,7 @@ func c19Run(dir string, bin string, cs *c19Case) []string {
 }
 
 func checkC19(c *Ctx) {
+	c.Level = "exploration"
 	bins := map[string]string{"cim2bin": os.Getenv("VERIF_CIM2BIN"), "cim2cas": os.Getenv("VERIF_CIM2CAS")}
 	for t, b := range bins {
 		if _, err := os.Stat(b); b == "" || err != nil {
